@@ -57,7 +57,7 @@ PROPS = {
         'coq': 'Props/C01.v',
         'families': [
             {'name': 'pk',
-             'args': {'quick': ['--exhaustive', 3, '--boundary', 2, '--random', 20000], 'thorough': ['--exhaustive', 4, '--boundary', 2, '--random', 300000]},
+             'args': {'quick': ['--exhaustive', 3, '--boundary', 2, '--long', 200, '--random', 20000], 'thorough': ['--exhaustive', 4, '--boundary', 2, '--long', 5000, '--random', 300000]},
              'shards': {'quick': 16, 'thorough': 16}, 'driver_args': ['--nodedupe']},
             {'name': 'tree',
              'args': {'quick': ['--corpus', 1, '--joints', 1, '--mutants', 1500, '--lexemes', 800, '--templates', 2500, '--random', 1500],
@@ -87,7 +87,7 @@ PROPS = {
                       'thorough': ['--corpus', 1, '--joints', 1, '--mutants', 60000, '--lexemes', 30000, '--templates', 100000, '--random', 60000]},
              'shards': {'quick': 16, 'thorough': 16}, 'driver_args': []},
             {'name': 'pk',
-             'args': {'quick': ['--exhaustive', 2, '--random', 20000], 'thorough': ['--exhaustive', 3, '--random', 300000]},
+             'args': {'quick': ['--exhaustive', 2, '--long', 200, '--random', 20000], 'thorough': ['--exhaustive', 3, '--long', 5000, '--random', 300000]},
              'shards': {'quick': 16, 'thorough': 16}, 'driver_args': ['--nodedupe']},
         ],
         'exhaustive': {'quick': False, 'thorough': False},
@@ -321,6 +321,8 @@ PROPS = {
             {'name': 'use', 'args': {'quick': ['--random', 4000], 'thorough': ['--random', 200000]},
              'shards': {'quick': 16, 'thorough': 16}, 'driver_args': []},
             {'name': 'graph', 'args': {'quick': ['--random', 4000], 'thorough': ['--random', 200000]},
+             'shards': {'quick': 16, 'thorough': 16}, 'driver_args': []},
+            {'name': 'inc', 'args': {'quick': ['--random', 1600], 'thorough': ['--random', 60000]},
              'shards': {'quick': 16, 'thorough': 16}, 'driver_args': []},
         ],
         'exhaustive': {'quick': False, 'thorough': False},
